@@ -813,7 +813,8 @@ def emit_data(repo, out, specs, errors):
             errors.append({'target': spec['name'], 'out': out, 'error': str(exc)})
     header = ("(* GENERATED by gen/translate.py from the current repo source -- do not edit *)\n"
               "From Coq Require Import ZArith String List Bool.\nImport ListNotations.\n"
-              "Local Open Scope string_scope.\nLocal Open Scope Z_scope.\n\n")
+              + ("From PV Require Import EffectKinds.\n" if out == 'Gen_effects' else "")
+              + "Local Open Scope string_scope.\nLocal Open Scope Z_scope.\n\n")
     return {f"{out}.v": header + "\n".join(chunks)}, stamps
 
 
